@@ -136,13 +136,23 @@ fn candidate_ip(i: usize) -> Ipv4Addr {
     Ipv4Addr::new(127, a, l, 20 + i as u8)
 }
 
+thread_local! {
+    static NEXT_PORT: std::cell::Cell<u16> = const { std::cell::Cell::new(10_000) };
+}
+
 /// Bind listeners (or reserve closed ports) on candidate_ip(i):P for one common P.
 fn setup(listening: &[bool]) -> std::io::Result<(u16, Vec<Option<std::net::TcpListener>>)> {
-    'retry: for _ in 0..50 {
-        // pick a port that is free on every candidate address
-        let probe = std::net::TcpListener::bind(SocketAddrV4::new(candidate_ip(200), 0))?;
-        let port = probe.local_addr()?.port();
-        drop(probe);
+    'retry: for _ in 0..200 {
+        // Pick a port that is free on every candidate address - and *below* the kernel's range of
+        // ephemeral ports (32768..): a connect to a closed port P on a loopback address whose
+        // source address is that same address and whose kernel-chosen source port happens to be P
+        // connects to itself (TCP simultaneous open) and "succeeds". With P taken from the
+        // ephemeral range that happened about once in 30 000 connects to a closed candidate.
+        let port = NEXT_PORT.with(|n| {
+            let v = n.get();
+            n.set(if v >= 31_000 { 10_000 } else { v + 1 });
+            v
+        });
         let mut ls = vec![];
         for (i, l) in listening.iter().enumerate() {
             let addr = SocketAddrV4::new(candidate_ip(i), port);
